@@ -11,7 +11,8 @@ LEVEL = "other"
 
 
 def run(res, f, tier):
-    t = optable.compute(f)
+    unroll = 3 if tier == "thorough" else 2
+    t = optable.compute(f, loop_bound=unroll)
     if not t:
         raise Inconclusive("recursive evaluator not found from Expr::evaluate")
     res.floor("node kinds dispatched by the evaluator", len(t["rows"]), 47)
@@ -31,7 +32,7 @@ def run(res, f, tier):
         "explanation": "All acyclic paths of the recursive evaluator's coroutine body (MIR before the state-machine transform; "
                        "await loops collapsed; for-loops unrolled %d times) were enumerated by tag-symbolic abstract interpretation for each "
                        "of the %d node kinds, with operator functions opaque; the ordered evaluator invocations, operator/context calls, "
-                       "conditions and result of every path were compared with the path set spec/evalorder.py prescribes." % (2, len(t["rows"])),
+                       "conditions and result of every path were compared with the path set spec/evalorder.py prescribes." % (unroll, len(t["rows"])),
         "evaluator": t["coroutine"],
         "node_kinds": len(t["rows"]),
         "paths": st["paths"],
